@@ -1,6 +1,7 @@
 package main
 
 import (
+	"errors"
 	"fmt"
 	"io"
 	"os"
@@ -56,9 +57,27 @@ func (c *decryptRedumpCmd) Run() error {
 		return err
 	}
 
+	var image io.Reader = imageWrapped
+
+	// a decrypted image that still carries a 3k3y watermark would be taken for a 3k3y image (and transformed again)
+	// when it is served, so remove it like the 3k3y decryption does
+	switch _, err := fs.Test3k3yImage(imageWrapped); {
+	case err == nil:
+		imageCleared, err := fs.NewISO3k3y(imageWrapped)
+		if err != nil {
+			return err
+		}
+
+		image = imageCleared
+	case errors.Is(err, fs.ErrNot3k3y):
+		// pass
+	default:
+		return fmt.Errorf("3k3y test failed: %w", err)
+	}
+
 	fmt.Fprintf(os.Stderr, "Decrypting Redump image %s ...\n", c.Image.Name()) // stdout may be an output
 
-	_, err = io.Copy(c.Output, imageWrapped)
+	_, err = io.Copy(c.Output, image)
 	return err
 }
 
